@@ -11,7 +11,7 @@
       protect := sel sel index mode lifetime proposal
       kid     := inSpi outSpi proposal(original) proposal n sel* n sel* mode lifetime
       kind    := req msg | resp msg | geninit kid | gencreate kid kid? | gendelchild kid | gendpd | gendelike | genrekeyike
-      tape    := n tval*         tval := b hex | f 0/1 | n nat | a method hex
+      tape    := n tval*         tval := b hex | f 0/1 | n nat | a method hex | v 0/1
       confent := myAddr peerAddr conf
       xent    := xsa succ?                          (a successor that is already a table entry: 0)
       event   := as in `miter`
@@ -60,6 +60,7 @@ def tval : P TVal := do
   | "f" => do let b ← bool; pure (.flag b)
   | "n" => do let n ← nat; pure (.num n)
   | "a" => do let m ← nat; let d ← hex; pure (.auth m d)
+  | "v" => do let b ← bool; pure (.verdict b)
   | _ => failure
 
 /-! ### rendering -/
